@@ -1,6 +1,7 @@
 import Solvor.Net.Theorems
 /-! Axiom audit for the property theorems of C15 (run by every check). -/
 #print axioms Solvor.Net.components_count_correct
+#print axioms Solvor.Net.lowlink_correct
 #print axioms Solvor.Net.lowlink_partial
 #print axioms Solvor.Net.kcoreDef_greatest
 #print axioms Solvor.Net.coreNumDef_spec
